@@ -80,8 +80,52 @@ package zerolog
 // ---------------------------------------------------------------------------
 // writer.go
 
+// C06: the synchronising wrapper. lw is read and called only with mu held
+// (`flag guarded` gives one obligation per access and per call on lw), so two
+// calls into the wrapped writer never overlap; the slice is passed on as it is.
+//@ func (*syncWriter).Write(s, p) n, err
+//@   props C06
+//@   arith int
+//@   flag guarded mu lw
+//@   requires s != nil && !held(s.mu) && s.lw != nil
+//@   ensures !held(s.mu)
+//@   ensures ncalls(LevelWriter.Write) == old(ncalls(LevelWriter.Write)) + 1 && callarg(LevelWriter.Write, old(ncalls(LevelWriter.Write)), 0) == s.lw && same(callarg(LevelWriter.Write, old(ncalls(LevelWriter.Write)), 1), p)
+//@   ensures n == callres(LevelWriter.Write, old(ncalls(LevelWriter.Write)), 0) && err == callres(LevelWriter.Write, old(ncalls(LevelWriter.Write)), 1)
+//@   ensures ncalls(LevelWriter.WriteLevel) == old(ncalls(LevelWriter.WriteLevel))
+
+//@ func (*syncWriter).WriteLevel(s, l, p) n, err
+//@   props C06
+//@   arith int
+//@   flag guarded mu lw
+//@   requires s != nil && !held(s.mu) && s.lw != nil
+//@   ensures !held(s.mu)
+//@   ensures ncalls(LevelWriter.WriteLevel) == old(ncalls(LevelWriter.WriteLevel)) + 1 && callarg(LevelWriter.WriteLevel, old(ncalls(LevelWriter.WriteLevel)), 0) == s.lw && callarg(LevelWriter.WriteLevel, old(ncalls(LevelWriter.WriteLevel)), 1) == l && same(callarg(LevelWriter.WriteLevel, old(ncalls(LevelWriter.WriteLevel)), 2), p)
+//@   ensures n == callres(LevelWriter.WriteLevel, old(ncalls(LevelWriter.WriteLevel)), 0) && err == callres(LevelWriter.WriteLevel, old(ncalls(LevelWriter.WriteLevel)), 1)
+//@   ensures ncalls(LevelWriter.Write) == old(ncalls(LevelWriter.Write))
+
+//@ func (*syncWriter).Close(s) err
+//@   props C06
+//@   arith int
+//@   flag guarded mu lw
+//@   requires s != nil && !held(s.mu) && s.lw != nil
+//@   ensures !held(s.mu)
+//@   ensures ncalls(LevelWriter.WriteLevel) == old(ncalls(LevelWriter.WriteLevel)) && ncalls(LevelWriter.Write) == old(ncalls(LevelWriter.Write))
+
+//@ func SyncWriter(w) res
+//@   props C06
+//@   arith int
+//@   requires w != nil
+//@   ensures res != nil && typeis(res, "*syncWriter") && dyn(res, "*syncWriter") != nil && fresh(dyn(res, "*syncWriter")) && dyn(res, "*syncWriter").lw != nil
+
+//@ func (LevelWriterAdapter).WriteLevel(lw, l, p) n, err
+//@   props C06
+//@   arith int
+//@   requires lw.Writer != nil
+//@   ensures ncalls(io.Writer.Write) == old(ncalls(io.Writer.Write)) + 1 && callarg(io.Writer.Write, old(ncalls(io.Writer.Write)), 0) == lw.Writer && same(callarg(io.Writer.Write, old(ncalls(io.Writer.Write)), 1), p)
+//@   ensures n == callres(io.Writer.Write, old(ncalls(io.Writer.Write)), 0) && err == callres(io.Writer.Write, old(ncalls(io.Writer.Write)), 1)
+
 //@ func (*FilteredLevelWriter).WriteLevel(w, level, p) n, err
-//@   props C14
+//@   props C14 C06
 //@   arith bv
 //@   requires w != nil && w.Writer != nil
 //@   ensures level >= w.Level ==> ncalls(LevelWriter.WriteLevel) == old(ncalls(LevelWriter.WriteLevel)) + 1 && callarg(LevelWriter.WriteLevel, old(ncalls(LevelWriter.WriteLevel)), 0) == w.Writer && callarg(LevelWriter.WriteLevel, old(ncalls(LevelWriter.WriteLevel)), 1) == level && same(callarg(LevelWriter.WriteLevel, old(ncalls(LevelWriter.WriteLevel)), 2), p)
@@ -89,7 +133,7 @@ package zerolog
 //@   ensures level < w.Level ==> ncalls(LevelWriter.WriteLevel) == old(ncalls(LevelWriter.WriteLevel)) && n == len(p) && err == nil
 
 //@ func (multiLevelWriter).WriteLevel(t, l, p) n, err
-//@   props C14
+//@   props C14 C06
 //@   arith int
 //@   requires forall k in 0..len(t.writers): t.writers[k] != nil
 //@   ensures ncalls(LevelWriter.WriteLevel) == old(ncalls(LevelWriter.WriteLevel)) + len(t.writers)
@@ -152,8 +196,8 @@ package zerolog
 //@   arith int
 //@   requires e != nil ==> eventbuf(e.buf)
 //@   ensures e == nil ==> err == nil && ncalls(LevelWriter.WriteLevel) == old(ncalls(LevelWriter.WriteLevel)) && ncalls(putEvent) == old(ncalls(putEvent))
-//@   ensures [C03,C04] e != nil && old(e.level) != Disabled && old(e.w) != nil ==> ncalls(LevelWriter.WriteLevel) == old(ncalls(LevelWriter.WriteLevel)) + 1 && callarg(LevelWriter.WriteLevel, old(ncalls(LevelWriter.WriteLevel)), 0) == old(e.w) && callarg(LevelWriter.WriteLevel, old(ncalls(LevelWriter.WriteLevel)), 1) == old(e.level) && err == callres(LevelWriter.WriteLevel, old(ncalls(LevelWriter.WriteLevel)), 1)
-//@   ensures [C01,C03] e != nil && old(e.level) != Disabled && old(e.w) != nil ==> eventdone(callarg(LevelWriter.WriteLevel, old(ncalls(LevelWriter.WriteLevel)), 2)) && prefix(callarg(LevelWriter.WriteLevel, old(ncalls(LevelWriter.WriteLevel)), 2), old(e.buf)) && len(callarg(LevelWriter.WriteLevel, old(ncalls(LevelWriter.WriteLevel)), 2)) == len(old(e.buf)) + framebytes()
+//@   ensures [C03,C04,C06] e != nil && old(e.level) != Disabled && old(e.w) != nil ==> ncalls(LevelWriter.WriteLevel) == old(ncalls(LevelWriter.WriteLevel)) + 1 && callarg(LevelWriter.WriteLevel, old(ncalls(LevelWriter.WriteLevel)), 0) == old(e.w) && callarg(LevelWriter.WriteLevel, old(ncalls(LevelWriter.WriteLevel)), 1) == old(e.level) && err == callres(LevelWriter.WriteLevel, old(ncalls(LevelWriter.WriteLevel)), 1)
+//@   ensures [C01,C03,C06] e != nil && old(e.level) != Disabled && old(e.w) != nil ==> eventdone(callarg(LevelWriter.WriteLevel, old(ncalls(LevelWriter.WriteLevel)), 2)) && prefix(callarg(LevelWriter.WriteLevel, old(ncalls(LevelWriter.WriteLevel)), 2), old(e.buf)) && len(callarg(LevelWriter.WriteLevel, old(ncalls(LevelWriter.WriteLevel)), 2)) == len(old(e.buf)) + framebytes()
 //@   ensures [C03,C04] e != nil && (old(e.level) == Disabled || old(e.w) == nil) ==> ncalls(LevelWriter.WriteLevel) == old(ncalls(LevelWriter.WriteLevel)) && err == nil
 //@   ensures [C06,C07,C14] e != nil ==> ncalls(putEvent) == old(ncalls(putEvent)) + 1 && callarg(putEvent, old(ncalls(putEvent)), 0) == e
 //@   ensures e != nil ==> e.level == old(e.level)
